@@ -323,8 +323,13 @@ def r14_4(ctx: Ctx):
             obs.append(ctx.ob("R14.4", f, c, status=OK if ok else INCONCLUSIVE if (opaque or not definite) else VIOLATION, detail="random_seed forwarded" if ok else f"init_from_config is called with random_seed={norm(v) if v is not None else '<missing>'}: demes built here seed their generators differently (or not at all)", construct=f"{meth}:random_seed"))
     g = ctx.prog.func("pyhms.demes.initialize", "init_from_config")
     dia = [c for c in body_walk(g.node) if isinstance(c, ast.Call) and norm(c.func) == "DemeInitArgs"]
-    ok = len(dia) == 1 and any(k.arg == "random_seed" and norm(k.value) == "random_seed" for k in dia[0].keywords)
-    obs.append(ctx.ob("R14.4", g, dia[0] if dia else g.node, status=OK if ok else VIOLATION, detail="init args carry the seed" if ok else "init_from_config drops or rewrites the random seed", construct="init-args"))
+    from .common import ctor_arguments
+
+    amap = ctor_arguments(ctx, dia[0], "DemeInitArgs") if len(dia) == 1 else None
+    rs = (amap or {}).get("random_seed")
+    ok = rs is not None and canon(rs, local_defs(g)) == "random_seed"
+    definite = len(dia) == 1 and amap is not None and (rs is None or isinstance(rs, ast.Constant) or (isinstance(rs, ast.Name) and rs.id in g.params() and rs.id != "random_seed"))
+    obs.append(ctx.ob("R14.4", g, dia[0] if dia else g.node, status=OK if ok else VIOLATION if definite else INCONCLUSIVE, detail="init args carry the seed" if ok else "init_from_config drops or rewrites the random seed", construct="init-args"))
     return obs
 
 
